@@ -123,16 +123,33 @@ func vhC17Preemptions() int {
 	return 1
 }
 
-// VH_C17_pairs: two calls touching a common address run concurrently; afterwards the listing equals
-// saved minus removed.
+// VH_C17_pairs: two calls run concurrently on addresses that may or may not coincide (same receiver, same
+// issuer with different receivers, crossed, self-addressed ...), from a cache where a third transaction
+// awaits, was saved and removed again (leaving an emptied list under its addresses), or was never saved;
+// afterwards the listing of both addresses equals saved minus removed.
 func VH_C17_pairs() {
 	h := vhNewCache()
 	m := &vhModel{}
-	rcv := vhAddr("rcv")
-	m.trxs = []*transaction.Transaction{vhTrx(0, vhAddr("iss0"), rcv), vhTrx(1, vhAddr("iss1"), rcv), vhTrx(2, "X", rcv)}
-	m.awaiting = []bool{false, false, true}
-	verifrt.Assert(h.SaveAwaitedTransaction(m.trxs[2]) == nil, "C17/pair/setup")
+	m.trxs = []*transaction.Transaction{vhTrx(0, vhAddr("iss0"), vhAddr("rcv0")), vhTrx(1, vhAddr("iss1"), vhAddr("rcv1")), vhTrx(2, "X", vhAddr("rcv2"))}
+	m.awaiting = []bool{false, false, false}
+	setup := verifrt.Choose("setup", 3)
+	if setup < 2 {
+		verifrt.Assert(h.SaveAwaitedTransaction(m.trxs[2]) == nil, "C17/pair/setup")
+		m.awaiting[2] = true
+	}
+	if setup == 1 {
+		_, err := h.RemoveAwaitedTransaction(m.trxs[2].Hash, m.trxs[2].ReceiverAddress)
+		verifrt.Assert(err == nil, "C17/pair/setup-remove")
+		m.awaiting[2] = false
+	}
 	kind := verifrt.Choose("pair", 3)
+	if kind == 1 && setup != 0 {
+		return
+	}
+	reader := "X"
+	if kind == 2 {
+		reader = vhAddr("reader")
+	}
 	verifrt.ExploreSchedules(vhC17Preemptions())
 	var wg sync.WaitGroup
 	var e1, e2 error
@@ -147,9 +164,9 @@ func VH_C17_pairs() {
 		case 0:
 			e2 = h.SaveAwaitedTransaction(m.trxs[1])
 		case 1:
-			_, e2 = h.RemoveAwaitedTransaction(m.trxs[2].Hash, rcv)
+			_, e2 = h.RemoveAwaitedTransaction(m.trxs[2].Hash, m.trxs[2].ReceiverAddress)
 		case 2:
-			h.ReadTransactions(rcv)
+			h.ReadTransactions(reader)
 		}
 	}()
 	wg.Wait()
@@ -160,6 +177,7 @@ func VH_C17_pairs() {
 		verifrt.Assert(e2 == nil, "C17/pair/second-save-succeeds")
 		m.awaiting[1] = true
 	case 1:
+		verifrt.Assert(e2 == nil, "C17/pair/remove-succeeds")
 		m.awaiting[2] = false
 	}
 	vhCheckListing(h, m, "X", "C17/pair/final-X")
